@@ -255,15 +255,199 @@ fn scenario(cfg: &RunCfg) -> Outcome {
     }
 }
 
+/// true when `rx` holds the complete head of a non-1xx response (interim heads are skipped)
+fn final_head_complete(rx: &[u8]) -> bool {
+    let mut rest = rx;
+    loop {
+        let Some(p) = rest.windows(4).position(|w| w == b"\r\n\r\n") else { return false };
+        if !rest.starts_with(b"HTTP/1.1 1") {
+            return true;
+        }
+        rest = &rest[p + 4..];
+    }
+}
+
+/// Watches the cache dir of uploads that are answered with an endless response.
+struct StreamWatch {
+    dir: PathBuf,
+    steps: u64,
+    max_files_seen: usize,
+    send_left: u32,
+    drop_senders_at: Option<u64>,
+    next_id: u32,
+}
+impl StreamWatch {
+    /// true when every client of the run holds the complete head of its answer
+    fn all_answered(eng: &Engine) -> bool {
+        eng.clients.iter().all(|c| final_head_complete(&c.received))
+    }
+}
+impl Extras for StreamWatch {
+    fn enabled(&mut self, _eng: &Engine) -> Vec<u32> {
+        let have = handler::HANDLER.with(|h| !h.borrow().senders.is_empty());
+        let mut v = Vec::new();
+        if have && self.send_left > 0 {
+            v.push(0);
+        }
+        if have {
+            if let Some(t) = self.drop_senders_at {
+                if self.steps >= t {
+                    v.push(1);
+                }
+            }
+        }
+        v
+    }
+    fn step(&mut self, _eng: &mut Engine, id: u32) {
+        if id == 0 {
+            self.send_left -= 1;
+            self.next_id += 1;
+            let n = self.next_id;
+            handler::HANDLER.with(|h| {
+                let mut h = h.borrow_mut();
+                let k = h.senders.len();
+                let (_, s) = &mut h.senders[n as usize % k];
+                s.send(servlin::Event::Message(format!("tick {n}")));
+            });
+        } else {
+            handler::HANDLER.with(|h| h.borrow_mut().senders.clear());
+            self.drop_senders_at = None;
+            gen::count("probe.senders_dropped_later");
+        }
+    }
+    fn after_step(&mut self, eng: &mut Engine, _act: Act) -> Option<Violation> {
+        self.steps += 1;
+        let files = list_dir(&self.dir);
+        self.max_files_seen = self.max_files_seen.max(files.len());
+        if !files.is_empty() && Self::all_answered(eng) {
+            return Some(Violation {
+                clause: "C10.removed_when_answered".into(),
+                detail: format!(
+                    "every client holds the complete head of its (event-stream) answer, i.e. every request of the run has been answered, yet the cache dir holds {files:?}"
+                ),
+            });
+        }
+        None
+    }
+}
+
+/// Uploads answered with an event stream whose sender the application keeps: the answer
+/// never "finishes", so the file must go when the handler has produced it, and a client
+/// that leaves the idle stream (which the server cannot notice) must not pin it either.
+fn stream_answer(cfg: &RunCfg) -> Outcome {
+    let dir = RunDir::new("c10s");
+    let cache = dir.path.join("cache");
+    std::fs::create_dir_all(&cache).unwrap();
+    let s = 64usize;
+    let scfg = ServerCfg { max_conns: 3, small_body_len: s, cache_dir: Some(cache.clone()), with_permit: false };
+    with(|w| {
+        w.net.knobs.sock_cap = *w.tape.pick(&[262_144usize, 8192, 512]);
+        w.net.knobs.short_io = w.tape.ratio(1, 2);
+        w.net.knobs.spurious_pending_64 = *w.tape.pick(&[0u32, 0, 6]);
+        w.fs.short_io = w.tape.ratio(1, 2);
+    });
+    let mut eng = match Engine::start(scfg) {
+        Ok(e) => e,
+        Err(e) => return Outcome { harness_error: Some(e), ..Default::default() },
+    };
+    eng.step_cap = 2_000_000;
+    eng.weights.extra = gen::pick(&[1u32, 4]);
+    let nclients = 1 + gen::below(2) as usize;
+    let mut descr = Vec::new();
+    for c in 0..nclients {
+        let l = if gen::ratio(1, 8) { 60_000 + gen::below(20_000) as usize } else { s + 1 + gen::below(3000) as usize };
+        let declared = gen::ratio(1, 2);
+        let r = Req {
+            path: format!("/s{c}"),
+            method: "POST".into(),
+            kind: if declared { ReqKind::Known(l) } else { ReqKind::Unknown(l) },
+            expect: gen::ratio(1, 6),
+            wait100: false,
+            body_seed: gen::seed32(),
+            plan: Plan { on_pending: OnPending::GetBody(l as u64 + 10), on_ready: OnReady::EventStream, resp: RespSpec::simple(200) },
+            extra_headers: vec![],
+            raw_head: None,
+            raw_body: None,
+            meta: None,
+        };
+        handler::set_plan(&r.path, r.plan.clone());
+        let mut ops = vec![Op::Connect, Op::Send(r.head()), Op::Send(r.body())];
+        // wait for the head of the answer, then: stay, leave politely, leave abruptly
+        ops.push(Op::AwaitBytes(if r.expect { 90 } else { 40 }));
+        let leave = gen::below(4);
+        match leave {
+            0 => {}
+            1 => {
+                ops.push(Op::Pause(1 + gen::below(20)));
+                ops.push(Op::Close);
+                gen::count("fault.client_close_idle_stream");
+            }
+            2 => {
+                ops.push(Op::Pause(1 + gen::below(20)));
+                ops.push(Op::Rst);
+                gen::count("fault.client_rst_idle_stream");
+            }
+            _ => {
+                ops.push(Op::Fin);
+            }
+        }
+        let mut cl = Client::new(ops, gen::pick(&[Frag::Whole, Frag::Random]));
+        cl.slow_read = gen::ratio(1, 4);
+        eng.add_client(cl);
+        descr.push(format!("upload {c}: {} L={l} answered with an event stream, client leave-mode {leave}", if declared { "declared" } else { "undeclared" }));
+    }
+    let mut ex = StreamWatch {
+        dir: cache.clone(),
+        steps: 0,
+        max_files_seen: 0,
+        send_left: gen::pick(&[0u32, 0, 1, 3]),
+        drop_senders_at: if gen::ratio(1, 3) { Some(50 + u64::from(gen::below(400))) } else { None },
+        next_id: 0,
+    };
+    let run = eng.run(&mut ex);
+    // the application lets go of its senders at the very end so that the run can wind down
+    let left_idle = list_dir(&cache);
+    handler::HANDLER.with(|h| h.borrow_mut().senders.clear());
+    let run2 = if run.is_none() { eng.run(&mut ex) } else { None };
+    if let Some(mut v) = run.or(run2) {
+        v.detail = format!("{} ; workload: {descr:?}", v.detail);
+        return Outcome { violation: Some(v), nontrivial: true, ..Default::default() };
+    }
+    if eng.hit_cap {
+        return Outcome::fail("C10.terminates", format!("never quiesces; workload: {descr:?}"));
+    }
+    if let Some(p) = eng.sut_panics().first() {
+        return Outcome::fail("C10.no_task_panic", format!("{p}; workload: {descr:?}"));
+    }
+    if StreamWatch::all_answered(&eng) {
+        gen::count("probe.upload_answered_with_stream");
+        if !left_idle.is_empty() {
+            return Outcome::fail("C10.removed_when_answered", format!("idle at quiescence with every request answered, the cache dir holds {left_idle:?}; workload: {descr:?}"));
+        }
+    }
+    let left = list_dir(&cache);
+    let open = with(|w| w.net.conns.iter().filter(|c| c.accepted && !c.server_closed).count());
+    if open == 0 && !left.is_empty() {
+        return Outcome::fail("C10.dir_empty_after_all_closed", format!("all connections have closed but the cache dir still holds {left:?}; workload: {descr:?}"));
+    }
+    Outcome {
+        nontrivial: ex.max_files_seen > 0,
+        sample: if cfg.index < 1 { Some(json!({"workload": descr, "max_files_at_once": ex.max_files_seen})) } else { None },
+        ..Default::default()
+    }
+}
+
 pub fn spec() -> PropertySpec {
     PropertySpec {
         id: "C10",
         level: "fault_enumeration",
-        rule: "Each run: the real server with a real per-run cache directory (tmpfs) and 1-4 concurrent uploads (declared and undeclared length above the in-memory threshold, 65 B .. 150 KiB) whose life is cut by a fault sequence drawn from: client FIN / RST / abrupt close at an offset class {0, 1, half, 8191..8193, 65535..65537, L-1, L, L+1}; disk write failure (ENOSPC, EIO) at an offset, close failure, create failure, short writes; body over the handler's limit; handler outcome after receipt {normal, 5xx, drop, panic, fetch-body-again}; cache directory removed at a tape-chosen step; permit revoked mid-upload; connection-task cancellation at a tape-chosen step (only destructors run). Oracle reads the REAL directory: per-step invariant (a file may exist only while some request is still being received or handled) and, once every connection has closed, an empty directory; destructor panics are task panics. non-trivial = a temp file existed during the run.",
-        scenarios: vec![Scenario { name: "c10.uploads", property: "C10", func: scenario, runs_quick: 250_000, runs_thorough: 6_000_000, doc: "interrupted uploads" }],
+        rule: "Each run: the real server with a real per-run cache directory (tmpfs) and 1-4 concurrent uploads (declared and undeclared length above the in-memory threshold, 65 B .. 150 KiB) whose life is cut by a fault sequence drawn from: client FIN / RST / abrupt close at an offset class {0, 1, half, 8191..8193, 65535..65537, L-1, L, L+1}; disk write failure (ENOSPC, EIO) at an offset, close failure, create failure, short writes; body over the handler's limit; handler outcome after receipt {normal, 5xx, drop, panic, fetch-body-again}; cache directory removed at a tape-chosen step; permit revoked mid-upload; connection-task cancellation at a tape-chosen step (only destructors run). Oracle reads the REAL directory: per-step invariant (a file may exist only while some request is still being received or handled) and, once every connection has closed, an empty directory; destructor panics are task panics. Second stage: uploads answered with Response::event_stream() whose sender the application keeps (an answer that never finishes): as soon as every client holds the complete response head, and again idle at quiescence after clients stayed / closed / reset on the silent stream, the directory must be empty. non-trivial = a temp file existed during the run.",
+        scenarios: vec![Scenario { name: "c10.uploads", property: "C10", func: scenario, runs_quick: 250_000, runs_thorough: 6_000_000, doc: "interrupted uploads" },
+            Scenario { name: "c10.stream_answer", property: "C10", func: stream_answer, runs_quick: 60_000, runs_thorough: 1_500_000, doc: "uploads answered with an endless event stream; the client stays, leaves or resets" },
+        ],
         required_probes: vec![
             "probe.temp_file_existed", "probe.two_temp_files_at_once", "fault.client_rst_mid_upload", "fault.client_fin_mid_upload", "fault.client_close_mid_upload", "fault.fs_write", "fault.fs_close", "fault.fs_create",
-            "fault.cache_dir_removed", "fault.task_cancelled", "fault.permit_revoked_mid_upload", "job.panicked",
+            "fault.cache_dir_removed", "fault.task_cancelled", "fault.permit_revoked_mid_upload", "job.panicked", "probe.upload_answered_with_stream", "fault.client_rst_idle_stream", "fault.client_close_idle_stream",
         ],
         components: components_server(),
         assumptions: vec!["process death is out of scope (no recovery code exists; the property speaks of requests answered or abandoned)", "files are attributed to requests by count, not by name (names are random)"],
